@@ -15,11 +15,15 @@
                                rewrites give the same block tree
      Blocks_front_matter_factor  with a delimiter: the prologue, then a function of the lines of the rest
      Blocks_cursor_*           the cursor primitives stay inside the line; the look-ahead byte exists
+     Blocks_removed_paragraph_retightens, Blocks_tightness_reads   list tightness (BLK-1 repaired)
+     Blocks_refdef_title_inside_consumed   reference definitions (INL-2 repaired)
+     Blocks_total_*_partial    steps towards totality (Proofs/BlocksTotal.v: inventory of the Panic sites)
    What is only stated: Blocks_total_full_statement (no panic on valid UTF-8),
    Blocks_front_matter_composition_full_statement. *)
 From Coq Require Import List NArith Arith Bool Strings.String.
 From V Require Import Base.Bytes Base.Res Model.Ast Model.Strings Model.Feed Model.FrontMatter Model.RefDef Model.Blocks
-  Spec.LineEndings Spec.Valid Spec.EscapeSpec Proofs.FeedProofs Proofs.ValidProofs Proofs.BlocksProofs Proofs.BlocksCursor.
+  Spec.LineEndings Spec.Valid Spec.EscapeSpec Proofs.FeedProofs Proofs.ValidProofs Proofs.BlocksProofs Proofs.BlocksCursor
+  Proofs.BlocksTight Proofs.RefDefTitle Proofs.BlocksTotal.
 Import ListNotations.
 Local Open Scope string_scope.
 Local Open Scope list_scope.
@@ -117,9 +121,72 @@ Proof.
 Qed.
 Print Assumptions Blocks_lines_lf_terminated.
 
-(* totality of the whole block phase: stated, not proved.  The UTF-8 premise is necessary: *)
+(* totality of the whole block phase: stated, not proved.  The UTF-8 premise is necessary (Blocks_total_needs_utf8).
+   Proofs/BlocksTotal.v lists every Panic site of Model/Blocks.v and Model/RefDef.v with the invariant that excludes
+   it.  PROVED below (Blocks_total_*_partial), for every input / state: the invariant of the lines, the UTF-8 step of
+   add_line, find_first_nonspace and the column-mode advance_offset under the cursor invariant, add_line and
+   finalize under explicit premises on the node.  MISSING for the full statement: that every handler of
+   check_open_blocks / open_new_blocks keeps the cursor, tree and boundary invariants (per scanner: a match ends inside
+   the line at an ASCII byte; where a column-mode advance lands), the closing loops (finalize_up_to,
+   add_child_loop), parse_reference_inline on NUL-free valid content, the table functions, the fuel bounds. *)
 Definition Blocks_total_full_statement : Prop :=
   forall o x, utf8_valid x = true -> exists r, parse_blocks o x = Ok r.
+
+(* every line handed to process_line: LF at the end, valid UTF-8, no CR / LF / NUL before the LF *)
+Theorem Blocks_total_lines_partial : forall x, utf8_valid x = true ->
+  Forall (fun l => lf_terminated (norm_line l) /\ utf8_valid (norm_line l) = true /\ clean_line l = true) (lines x).
+Proof. exact lines_lf_utf8. Qed.
+Print Assumptions Blocks_total_lines_partial.
+
+(* the from_utf8 unwrap of add_line: a suffix of a valid line from a character boundary is valid; the boundary
+   conditions the parser meets: offset 0, offset past the end, an ASCII byte at the offset or just before it *)
+Theorem Blocks_total_utf8_suffix_partial : forall line k,
+  utf8_valid line = true -> at_boundary line k -> utf8_valid (skipn k line) = true.
+Proof. exact skipn_utf8. Qed.
+Print Assumptions Blocks_total_utf8_suffix_partial.
+
+(* find_first_nonspace under the cursor invariant CI (offset inside the line; first_nonspace stale, or the position
+   and column after the white space from offset on): no panic (first_nonspace_column - column), the invariant is
+   re-established with a fresh first_nonspace, offset <= first_nonspace <= |line| *)
+Theorem Blocks_total_rescan_partial : forall c line,
+  CI c line ->
+  exists c', find_first_nonspace c line = Ok c' /\ fresh_fns c' line /\ CI c' line
+             /\ c_offset c' = c_offset c /\ c_column c' = c_column c /\ c_pct c' = c_pct c
+             /\ c_offset c' <= c_fns c' <= List.length line /\ c_indent c' = c_fnsc c' - c_column c'.
+Proof. exact ffn_total. Qed.
+Print Assumptions Blocks_total_rescan_partial.
+
+Theorem Blocks_total_cursor_start_partial : forall line k, k <= List.length line -> CI (mkCur k 0 0 0 0 false false 0) line.
+Proof. exact CI_start. Qed.
+Print Assumptions Blocks_total_cursor_start_partial.
+
+(* advance_offset(line, count, true) from a freshly scanned cursor never indexes past the line as long as count is
+   at most the indent plus the number of bytes from first_nonspace on (tabs and partially consumed tabs included) *)
+Theorem Blocks_total_advance_columns_partial : forall c line count,
+  c_offset c <= List.length line -> fresh_fns c line ->
+  count <= (c_fnsc c - c_column c) + (List.length line - c_fns c) ->
+  exists c', advance_offset c line count true = Ok c'
+             /\ c_offset c <= c_offset c' <= List.length line /\ c_fns c' = c_fns c /\ c_fnsc c' = c_fnsc c.
+Proof. exact advance_columns_total. Qed.
+Print Assumptions Blocks_total_advance_columns_partial.
+
+Theorem Blocks_total_add_line_partial : forall st id line n,
+  get st id = Ok n -> bi_open (binf n) = true -> utf8_valid line = true ->
+  at_boundary line (if c_pct (ps_cur st) then S (c_offset (ps_cur st)) else c_offset (ps_cur st)) ->
+  exists st', add_line st id line = Ok st'.
+Proof. exact add_line_total. Qed.
+Print Assumptions Blocks_total_add_line_partial.
+
+(* finalize: no panic for a node that is present and open while a line is being processed (line_number >= 1) or
+   none is; per kind (finalize_pre): Paragraph: the reference-definition loop answers Ok; fenced code block: the
+   content is valid UTF-8 and its first line end exists and is LF; indented code block: the content is not empty *)
+Theorem Blocks_total_finalize_partial : forall o st id n,
+  get st id = Ok n -> bi_open (binf n) = true ->
+  (ps_curline_len st = 0 \/ 1 <= ps_line_number st) ->
+  finalize_pre o st n ->
+  exists p st', finalize o st id = Ok (p, st').
+Proof. exact finalize_total. Qed.
+Print Assumptions Blocks_total_finalize_partial.
 
 Definition opts_default : bopts := mkBO false false false false false false false false None None (fun v => v).
 
@@ -135,20 +202,57 @@ Theorem Blocks_atx_level_1_6 : forall rest m p level,
 Proof. exact atx_level_bounds. Qed.
 Print Assumptions Blocks_atx_level_1_6.
 
-(* ---- witnesses / non-vacuity *)
-(* finalize(List) runs before the still open reference-definition paragraph of its last item is removed:
-   the list is loose although its only item ends up with a single paragraph *)
+(* ---- list tightness and removed reference-definition paragraphs (BLK-1, repaired) *)
+(* add_child finalizes a List while the blocks below it are still open, so a paragraph of its last item that holds
+   only reference definitions is still there when the tightness is computed.  Since the repair the Paragraph arm of
+   finalize_borrowed computes the tightness of the (closed) list again after it has detached such a paragraph.
+   For EVERY state: whenever finalize removes a paragraph, the closed list two levels up is afterwards tight
+   exactly when list_is_tight (items_tight) holds of the children it has then. *)
+Theorem Blocks_removed_paragraph_retightens : forall o st id n content' m' item st',
+  get st id = Ok n -> bval n = Paragraph ->
+  resolve_refdefs (bo_fold o) (ps_refmap st) (bi_content (binf n)) = Ok (content', false, m') ->
+  finalize o st id = Ok (Some item, st') ->
+  forall lid l nl, parent_of item (ps_root st') = Some lid -> get st' lid = Ok l ->
+    bi_open (binf l) = false -> bval l = NList nl -> l_tight nl = items_tight (bkids l).
+Proof. exact finalize_removed_paragraph. Qed.
+Print Assumptions Blocks_removed_paragraph_retightens.
+
+(* what list_is_tight reads: the list is tight iff no item but the last has last_line_blank and no block of an item,
+   other than the last block of the last item, ends with a blank line *)
+Theorem Blocks_tightness_reads : forall items,
+  items_tight items = true <->
+  (forall pre it post, items = pre ++ it :: post ->
+     (bi_llb (binf it) = true -> post = []) /\
+     (forall spre s spost, bkids it = spre ++ s :: spost -> ends_with_blank_line s = true -> post = [] /\ spost = [])).
+Proof. exact items_tight_reads. Qed.
+Print Assumptions Blocks_tightness_reads.
+
+Theorem Blocks_single_block_item_tight : forall it s, bkids it = [s] -> items_tight [it] = true.
+Proof. exact items_tight_single. Qed.
+Print Assumptions Blocks_single_block_item_tight.
+
+(* the former witness of the defect: the list is now tight (its only item ends up with the single paragraph a) *)
 Definition doc_tight : bytes := Eval compute in B "- a" ++ [x0a; x0a] ++ B "  [x]: y" ++ [x0a] ++ B "# h" ++ [x0a].
 
-Theorem Blocks_tightness_order_witness :
+Theorem Blocks_tightness_witness_repaired :
   exists r nl it p h,
     parse_blocks opts_default doc_tight = Ok r /\
     to_node (br_root r) = Node Document (mkSp 1 1 4 3) [Node (NList nl) (mkSp 1 1 3 8) [Node (Item it) (mkSp 1 1 3 8) [p]]; h] /\
-    l_tight nl = false /\ nval p = Paragraph /\ nch p = [] /\
+    l_tight nl = true /\ nval p = Paragraph /\ nch p = [] /\
     br_refmap r = [(B "x", (B "y", []))].
 Proof. vm_compute. repeat eexists. Qed.
-Print Assumptions Blocks_tightness_order_witness.
+Print Assumptions Blocks_tightness_witness_repaired.
 
+(* ---- reference definitions (INL-2, repaired): a stored non-empty title lies inside the consumed bytes *)
+Theorem Blocks_refdef_title_inside_consumed : forall fold m content pos m' k u t,
+  parse_reference_inline fold m content = Ok (Some (pos, m')) ->
+  ref_lookup m k = None -> ref_lookup m' k = Some (u, t) -> t <> [] ->
+  exists p tl, Scan.scan_link_title (skipn p content) = Some tl
+               /\ clean_title (firstn tl (skipn p content)) = Ok t /\ p + tl <= pos.
+Proof. exact RefDefTitle.R.title_inside_consumed. Qed.
+Print Assumptions Blocks_refdef_title_inside_consumed.
+
+(* ---- non-vacuity *)
 Example Blocks_example :
   let x := B "> a" ++ [x0a] ++ B "b" ++ [x0a; x0a] ++ B "1. c" ++ [x0a] ++ B "```" ++ [x0a] ++ B "d" in
   exists r, parse_blocks opts_default x = Ok r /\ valid (to_node (br_root r)) = true /\
